@@ -28,6 +28,12 @@ func valueSig(fn *ssa.Function, v ssa.Value, hdr map[*ssa.BasicBlock]int) string
 			}
 		}
 	case *ssa.Phi:
+		if ip := inductionPhi(u.Block()); ip == u {
+			return fmt.Sprintf("iphi:L%d:%s", hdr[u.Block()], t)
+		}
+		if hdr[u.Block()] == 0 {
+			return "merge:" + t // a join after a branch, not a loop-carried value
+		}
 		return fmt.Sprintf("phi:L%d:%s", hdr[u.Block()], t)
 	case *ssa.Call:
 		return "call:" + calleeName(&u.Call) + ":" + t
@@ -102,9 +108,17 @@ func localSigs(fn *ssa.Function) map[string]string {
 	}
 	out := map[string]string{}
 	for n, s := range sets {
-		var l []string
+		var l, strong []string
 		for k := range s {
 			l = append(l, k)
+			if strings.HasPrefix(k, "phi:") || strings.HasPrefix(k, "iphi:") || strings.HasPrefix(k, "param:") || strings.HasPrefix(k, "makeslice:") || strings.HasPrefix(k, "call:") || strings.HasPrefix(k, "extract:") {
+				strong = append(strong, k)
+			}
+		}
+		// a loop-carried variable or a parameter is identified by that role alone: how else it
+		// is assigned inside the body changes with harmless edits
+		if len(strong) > 0 {
+			l = strong
 		}
 		sort.Strings(l)
 		out[n] = strings.Join(l, "|")
